@@ -66,6 +66,30 @@ Definition run_func_clears_in_finally : bool :=
    (index_of "  finally:" body <? index_of "    self.worker_comms.signal_worker_exit_completed(self.worker_id)" body)%nat &&
    has "    self.worker_comms.signal_worker_exit_completed(self.worker_id)" body).
 
+(* worker_init runs at most once per instance and reports under the INIT slot, worker_exit under the EXIT slot -- on BOTH
+   branches (with and without a timeout configured); the done-flag is set on both branches (a top-level statement after
+   the if/else); each phase clears ITS OWN stamp *)
+Definition init_exit_phases_bracketed : bool :=
+  match run_init_func_body with
+  | a :: b :: _ => String.eqb a "if self.init_func_completed:" && String.eqb b "  return False"
+  | _ => false end &&
+  has "    _, _, _, should_shut_down = self._run_safely(_init_func, INIT_FUNC)" run_init_func_body &&
+  has "  _, _, _, should_shut_down = self._run_safely(_init_func, INIT_FUNC)" run_init_func_body &&
+  has "self.init_func_completed = True" run_init_func_body &&
+  negb (has "  self.init_func_completed = True" run_init_func_body) &&
+  (index_of "  _, _, _, should_shut_down = self._run_safely(_init_func, INIT_FUNC)" run_init_func_body <?
+   index_of "self.init_func_completed = True" run_init_func_body)%nat &&
+  has "    results, success, send_results, should_shut_down = self._run_safely(_exit_func, EXIT_FUNC)" run_exit_func_body &&
+  has "  results, success, send_results, should_shut_down = self._run_safely(_exit_func, EXIT_FUNC)" run_exit_func_body &&
+  negb (existsb (fun l => String.eqb l "    self.worker_comms.signal_worker_task_completed(self.worker_id)") run_exit_func_body) &&
+  negb (existsb (fun l => String.eqb l "    self.worker_comms.signal_worker_task_completed(self.worker_id)") run_init_func_body) &&
+  match run_init_func_body with
+  | _ :: _ :: c :: d :: _ => String.eqb c "self.worker_comms.signal_worker_working_on_job(self.worker_id, INIT_FUNC)" && String.eqb d "self.last_job_id = INIT_FUNC"
+  | _ => false end &&
+  match run_exit_func_body with
+  | c :: d :: _ => String.eqb c "self.worker_comms.signal_worker_working_on_job(self.worker_id, EXIT_FUNC)" && String.eqb d "self.last_job_id = EXIT_FUNC"
+  | _ => false end.
+
 Inductive tev := TStart (now : Z) | TDone (now : Z) | TCheck (now : Z).
 Definition tstep (t : Z) (started : Z) (e : tev) : Z * option bool :=
   match e with
